@@ -3,7 +3,10 @@ from .stmt import Stmt
 
 
 class BaseCode:
-    pass
+    def check_limits(self):
+        """Raise CompileError if the generated code cannot be
+        represented in the output format."""
+        pass
 
 
 class CodeGen:
